@@ -29,6 +29,7 @@ ASSUMPTIONS = ["record and question equality/hash are congruent (C20)"]
 T = "_x._tcp.local."
 T2 = "_y._tcp.local."
 D13_SIG = "C13:lookup-third-query-early"
+D13B_SIG = "C13:suppression-last-sighting-only"
 
 
 class Stub:
@@ -91,6 +92,18 @@ def wire_ttl_check(outs, cached, now, sig):
         for p_ in pk:
             if len(p_) > const._MAX_MSG_TYPICAL:
                 bad.append(("C13:packet-size", "query packet of %d bytes" % len(p_)))
+        # split over several packets: every question once, every known answer handed to the builder in exactly one packet
+        wire_q = sorted(C.question_line(q) for m in msgs for q in m.questions)
+        if wire_q != sorted(C.question_line(q) for q in o.questions):
+            bad.append(("C13:split-questions", "the %d packets of one query carry questions %s, the query has %s" % (len(pk), wire_q, sorted(C.question_line(q) for q in o.questions))))
+        def ident(r):  # identity + rdata, without TTL and creation time
+            t = C.rec_line(r, created=0).split(" ")
+            return " ".join(t[:5] + t[7:])
+
+        wire_a = sorted(ident(a) for m in msgs for a in m.answers())
+        want_a = sorted(ident(r) for (r, t) in o.answers if not r.is_expired(now))
+        if wire_a != want_a:
+            bad.append(("C13:split-answers", "the %d packets of one query carry %d known answers, the query lists %d" % (len(pk), len(wire_a), len(want_a))))
         for m in msgs:
             for a in m.answers():
                 src = [r for r in cached if r == a]
@@ -125,7 +138,7 @@ def gen_svc_case(rng, big=False):
         recs.append(["p", ty, "Inst%d.%s" % (i, T if ty != T2 else T2), ttl, now - age])
     # noise: same name other type/class
     noise = rng.random() < 0.5
-    types = rng.choice([[T], [T], [T, T2], [T2, T]])
+    types = rng.choice([[T], [T], [T, T2], [T2, T], [T], [T], [T, T2], [T2, T], [T, T.upper()], [T.upper(), T, T2]])   # two spellings = one question
     qtype = rng.choice([None, None, "QU", "QM"])
     multicast = rng.random() < 0.8
     # earlier askers, oldest first: `gap` = ms before `now`.  Two or more of them with gaps around 999/1000 ms and identical
@@ -159,7 +172,9 @@ def run_svc(case, res):
 
     prevs = case.get("prevs") or ([case["prev"]] if case.get("prev") else [])
     extra = ptr(T, "Extra." + T, 4500, now - 10)
-    types = sorted(case["types"])
+    tset = set(case["types"])
+    types = list(tset)        # the order in which `for type_ in types_` walks this very set object
+    keys = list(dict.fromkeys(t.lower() for t in case["types"]))     # the distinct questions
     pairs = []
 
     def base_of(mode):
@@ -173,42 +188,66 @@ def run_svc(case, res):
         return frozenset((r.name.lower(), r.alias.lower()) for r in base if isinstance(r, type(extra)) and r.name.lower() == ty.lower()
                          and r.type == const._TYPE_PTR and r.class_ == const._CLASS_IN and not r.is_stale(t))
 
-    # the property's own bookkeeping, independent of the library: question -> (time of the last QM sighting, its known answers)
+    # the property's own bookkeeping, independent of the library's dict: question -> every QM sighting so far (time, known answers), in order.
+    # A sighting is a QM question this instance actually transmitted (read off the DNSOutgoing objects) or heard as a responder.
     spec = {}
+    early = []   # suppression verdicts of the asks before the final one
 
     def ask(t, base, qtype, final):
         z.cache = DNSCache()
         z.cache.async_add_records(base)
         pre_hist, pre_cache = hist_tokens(z.question_history), cache_tokens(z.cache)
         qu_ = (not case["multicast"]) if qtype is None else qtype == "QU"
-        outs_ = B.generate_service_query(z, float(t), set(case["types"]), case["multicast"], qmap[qtype])
+        outs_ = B.generate_service_query(z, float(t), tset, case["multicast"], qmap[qtype])
         pairs.append(("c13svc %d %s %s %s %d %s" % (t, C.b01(qu_), pre_cache, pre_hist, len(types), " ".join(C.hs(x) for x in types)),
                       "%s || %s" % (outs_str(outs_, float(t)), hist_str(z.question_history))))
+        sent = {q.name.lower() for o_ in outs_ for q in o_.questions}
         expect = {}
-        for ty in case["types"]:
+        for ty in keys:
             known = known_ids(base, ty, t)
-            e = spec.get(ty.lower())
-            sup_ = (not qu_) and e is not None and t - e[0] <= 999 and e[1] <= known
-            expect[ty] = (sup_, e)
-            if not qu_ and not sup_:
-                spec[ty.lower()] = (t, known)
+            sights = list(spec.get(ty.lower(), []))
+            # the sentence: SOME sighting within the previous 999 ms had a list we fully know
+            some_cov = (not qu_) and any(t - ts <= 999 and ks <= known for ts, ks in sights)
+            # what a history that keeps one entry per question can decide: the LAST sighting
+            last_cov = (not qu_) and bool(sights) and t - sights[-1][0] <= 999 and sights[-1][1] <= known
+            expect[ty] = {"some": some_cov, "last": last_cov, "sights": sights, "known": known}
+            if not final and not qu_:
+                v = suppression_verdict(ty, ty.lower() in sent, expect[ty], t)
+                if v:
+                    early.append(v)
+            if not qu_ and ty.lower() in sent:
+                spec.setdefault(ty.lower(), []).append((t, known))
         return outs_, qu_, expect
+
+    def suppression_verdict(ty, was_sent, e, t):
+        if e["some"] and was_sent:
+            if not e["last"]:
+                # finding D13b, exactly its class (`C13.LastSightingWorse`): a sighting within the window covers, a later sighting of the
+                # same question -- the one the dict kept -- does not
+                return (D13B_SIG, "QM question %s was sent at %d although it was asked/heard %s ms earlier with a known-answer list we fully know: a later "
+                        "sighting (%d ms earlier) with a list we do not cover has replaced it in the history (sightings: %s)"
+                        % (ty, t, [t - ts for ts, ks in e["sights"] if t - ts <= 999 and ks <= e["known"]], t - e["sights"][-1][0], [(t - ts, len(ks)) for ts, ks in e["sights"]]))
+            return ("C13:not-suppressed", "QM question %s asked %d ms after the same question was last asked/heard with a known-answer list we cover (earlier askers: %s)"
+                    % (ty, t - e["sights"][-1][0], prevs))
+        if not e["some"] and not was_sent:
+            return ("C13:wrongly-suppressed", "QM question %s was not asked at %d although no sighting of it within the previous 999 ms had a list we cover; earlier askers: %s" % (ty, t, prevs))
+        return None
 
     for idx, pv in enumerate(prevs):
         then = now - pv["gap"]
         if pv["mode"].startswith("responder"):
             # heard on the link as an authoritative responder: recorded with the querier's known answers
-            for ty in case["types"]:
+            for ty in keys:
                 known = {r for r in recs if isinstance(r, type(extra)) and r.name.lower() == ty.lower() and r.type == const._TYPE_PTR
                          and r.class_ == const._CLASS_IN and not r.is_stale(then)}
                 ids_ = known_ids(recs, ty, then)
-                if pv["mode"] == "responder-more" and ty == T:
+                if pv["mode"] == "responder-more" and ty == T.lower():
                     known.add(extra)
                     ids_ = ids_ | {(T, extra.alias.lower())}
                 if pv["qtype"] != "QU":
                     z.question_history.add_question_at_time(DNSQuestion(ty.upper() if pv.get("recase") else ty, const._TYPE_PTR, const._CLASS_IN),
                                                             float(then), known)
-                    spec[ty.lower()] = (then, ids_)
+                    spec.setdefault(ty.lower(), []).append((then, ids_))
         else:
             ask(then, base_of(pv["mode"]), pv["qtype"], False)
         if pv.get("expire_after") is not None:
@@ -234,25 +273,25 @@ def run_svc(case, res):
                 bad.append(("C13:packet-size", "query packet of %d bytes" % len(p)))
         for m in msgs:
             for q in m.questions:
-                if q.name in asked:
+                if q.name.lower() in asked:
                     bad.append(("C13:question-twice", "question %s appears twice" % q.name))
-                asked.setdefault(q.name, {"qu": q.unique, "ka": []})
+                asked.setdefault(q.name.lower(), {"qu": q.unique, "ka": []})
             for a in m.answers():
                 for name in list(asked):
-                    if a.name.lower() == name.lower():
+                    if a.name.lower() == name:
                         asked[name]["ka"].append((a.alias, a.ttl))
-    for ty in case["types"]:
+    bad += early
+    for ty in keys:
         want = sorted((r.alias, int((r.created + 1000 * r.ttl - now) // 1000)) for r in cached
                       if r.name.lower() == ty.lower() and r.type == const._TYPE_PTR and r.class_ == const._CLASS_IN and now < r.created + 500 * r.ttl)
-        sup, entry = expect[ty]
         got = asked.get(ty)
-        if sup:
-            if got is not None:
-                bad.append(("C13:not-suppressed", "QM question %s asked %d ms after the same question was last asked/heard with a known-answer list we cover (earlier askers: %s)"
-                            % (ty, now - entry[0], prevs)))
-            continue
+        if not qu:
+            v = suppression_verdict(ty, got is not None, expect[ty], now)
+            if v:
+                bad.append(v)
         if got is None:
-            bad.append(("C13:wrongly-suppressed" if not qu else "C13:qu-suppressed", "question %s (qu=%s) was not asked; earlier askers: %s" % (ty, qu, prevs)))
+            if qu:
+                bad.append(("C13:qu-suppressed", "question %s (qu=%s) was not asked; earlier askers: %s" % (ty, qu, prevs)))
             continue
         if got["qu"] != (qu and case["multicast"]):
             bad.append(("C13:qu-bit", "question %s has QU bit %s, expected %s" % (ty, got["qu"], qu and case["multicast"])))
@@ -278,7 +317,7 @@ def run_svc(case, res):
 # stream req
 
 
-def gen_req_case(rng):
+def gen_req_case(rng, many=0):
     now = 1_000_000 + rng.randint(0, 10**6)
     name = "Dev." + T
     server = rng.choice(["host.local.", "Host.Local.", name])
@@ -288,6 +327,12 @@ def gen_req_case(rng):
             ttl = rng.choice([120, 4500, 10])
             age = rng.choice([0, ttl * 500 - 1, ttl * 500, ttl * 500 + 1, ttl * 1000, rng.randint(0, ttl * 1000)])
             recs.append([kind, ttl, now - age])
+    if many:
+        # more address records than one packet holds (about 88 A records of a compressed name): the query is split, TC on all but the last
+        ttl = rng.choice([120, 4500])
+        for i in range(many):
+            age = rng.choice([0, 0, 0, 0, 1000, 1000, ttl * 500 - 1, ttl * 500 - 1, ttl * 500, rng.randint(0, ttl * 1000)])
+            recs.append(["am", ttl, now - age, i])
     prevgap = rng.choice([None, 0, 500, 998, 999, 1000, 1001])
     return {"stream": "req", "now": now, "name": name, "server": server, "recs": recs, "qu": rng.random() < 0.4, "prevgap": prevgap,
             "prevqu": rng.random() < 0.3}
@@ -301,8 +346,10 @@ def run_req(case, res):
     now = case["now"]
     name, server = case["name"], case["server"]
     recs = []
-    for kind, ttl, cr in case["recs"]:
-        if kind == "s":
+    for kind, ttl, cr, *idx in case["recs"]:
+        if kind == "am":
+            recs.append(DNSAddress(server, const._TYPE_A, const._CLASS_IN | const._CLASS_UNIQUE, ttl, bytes([10, 1, idx[0] // 250, idx[0] % 250]), created=float(cr)))
+        elif kind == "s":
             recs.append(DNSService(name, const._TYPE_SRV, const._CLASS_IN | const._CLASS_UNIQUE, ttl, 0, 0, 80, server, created=float(cr)))
         elif kind == "t":
             recs.append(DNSText(name, const._TYPE_TXT, const._CLASS_IN | const._CLASS_UNIQUE, ttl, b"\x03a=1", created=float(cr)))
@@ -361,8 +408,13 @@ def run_req(case, res):
             bad.append(("C13:lookup-question-presence", "lookup question %s/%d is %s; expected %s (QU=%s, earlier QM ask %s ms ago, fresh answers %d)"
                         % (qn, qt, "asked" if asked else "absent", "asked" if expect else "absent", case["qu"],
                            None if case["prevqu"] else case["prevgap"], len(k_now))))
-    sig = (case["qu"], case["prevgap"], case["prevqu"], tuple(sorted(k for k, _, _ in case["recs"])), len(out.questions))
+    sig = (case["qu"], case["prevgap"], case["prevqu"], tuple(sorted({r[0] for r in case["recs"]})), len(out.questions), len(out.packets()))
     return [(line, impl)], bad, sig
+
+
+def loop_errors(sim):
+    """exceptions the event loop's handler saw during a simulated run (a timer callback or `datagram_received` raised)"""
+    return [("C13:exception", "exception in the event loop: %s" % str(e.get("exception") or e.get("message"))[:200]) for e in sim.errors[:1]]
 
 
 # ------------------------------------------------------------------------------------------
@@ -453,7 +505,7 @@ def run_hear(case, res):
         await vsim.close_host(host)
 
     sim.run(main)
-    bad = []
+    bad = loop_errors(sim)
     theirs_set = set(range(case["nknown"])) | ({"x"} if case["extra"] else set())
     ours_set = set(range(case["ours"]))
     expect_sup = case["registered"] is True and not case["qu"] and case["gap"] <= 999 and theirs_set <= ours_set
@@ -463,6 +515,259 @@ def run_hear(case, res):
     # the records of the incoming message carry created = arrival time
     pairs = [out["svc"], out["hear"]] + ([out["tick"]] if "tick" in out else [])
     sig = ("hear", case["gap"], case["qu"], case["registered"], theirs_set <= ours_set, bool(case.get("cover")), bool(case.get("tc")), bool(case.get("recase")), case.get("tick"))
+    return pairs, bad, sig
+
+
+# ------------------------------------------------------------------------------------------
+# stream hearm: a real host hears a whole query message -- several questions (QU/QM mixes, re-cased, other record types), probes with
+# authority records, truncated multi-packet queries, legacy source ports -- then asks its own browser questions `gap` ms later
+
+MINE_HOST = "mine.local."
+QPOOL = [("T", 12), ("TU", 12), ("T2", 12), ("T", 255), ("HOST", 1), ("INST", 33), ("INST", 255)]
+
+
+def _qname(tag):
+    return {"T": T, "TU": T.upper(), "T2": T2, "HOST": MINE_HOST, "INST": "Mine." + T}[tag]
+
+
+def _their(tag, t):
+    """a record of the peer's known-answer / authority section"""
+    if tag == "other":
+        return ptr(T, "Other." + T, 4500, t)
+    if tag == "mine":
+        return ptr(T, "Mine." + T, 4500, t)
+    if tag == "new":
+        return ptr(T, "New." + T, 4500, t)
+    if tag.startswith("y"):
+        return ptr(T2, "InstY%s.%s" % (tag[1:], T2), 4500, t)
+    return ptr(T, "Inst%s.%s" % (tag, T), 4500, t)
+
+
+def gen_hearm_case(rng):
+    form = rng.choice(["multi", "multi", "multi", "probe", "probe", "tc", "single"])
+    nq = {"multi": rng.choice([2, 2, 3, 4]), "probe": rng.choice([1, 1, 2]), "tc": rng.choice([1, 2]), "single": 1}[form]
+    qs = [[tag, ty, rng.random() < (0.6 if form == "probe" else 0.3)] for (tag, ty) in
+          (rng.choice(QPOOL[:3] + QPOOL[:3] + QPOOL) for _ in range(nq))]
+    if rng.random() < 0.7 and not any(q[0] in ("T", "TU") and q[1] == 12 for q in qs):
+        qs.insert(rng.randrange(len(qs) + 1), [rng.choice(["T", "T", "TU"]), 12, rng.random() < 0.25])
+    cover = rng.random() < 0.4
+    known = [str(i) for i in range(rng.choice([0, 0, 1, 3]))] + (["other"] if rng.random() < 0.3 else []) + (["mine"] if cover else []) \
+        + (["y0"] if rng.random() < 0.2 else [])
+    rng.shuffle(known)
+    pkts = []
+    if form == "probe":
+        # a probe: the questions plus the records the prober proposes in the authority section; no known answers
+        pkts.append({"qs": qs, "ans": [], "auth": rng.choice([["new"], ["new", "other"], ["0"], ["mine"]]), "tc": False})
+    elif form == "tc":
+        k = rng.choice([2, 2, 3])
+        cut = sorted(rng.randrange(len(known) + 1) for _ in range(k - 1))
+        parts = [known[a:b] for a, b in zip([0] + cut, cut + [len(known)])]
+        split_q = len(qs) > 1 and rng.random() < 0.4
+        for i, part in enumerate(parts):
+            pq = qs if (i == 0 and not split_q) else ([qs[0]] if i == 0 else (qs[1:] if (i == 1 and split_q) else []))
+            pkts.append({"qs": pq, "ans": part, "auth": [], "tc": i < k - 1})
+    else:
+        pkts.append({"qs": qs, "ans": known, "auth": [], "tc": False})
+    return {"stream": "hearm", "simseed": rng.randint(0, 10**6), "form": form, "registered": rng.choice([[T], [T], [T], [T], [T, T2], [T2], []]),
+            "packets": pkts, "port": rng.choice([5353, 5353, 5353, 5353, 40000]), "pgap": rng.choice([0, 0, 0, 30]) if len(pkts) > 1 else 0,
+            "gap": rng.choice([0, 1, 500, 500, 998, 999, 1000, 1001, 3000]), "ours": rng.choice([0, 1, 3]), "oursy": rng.random() < 0.3, "cover": cover,
+            "tick": rng.choice([None, None, None, 0.5]),
+            # the (only) service was updated before the query is heard: it is still registered, the host is still authoritative
+            "updated": rng.random() < 0.35}
+
+
+def run_hearm(case, res):
+    from zeroconf import DNSOutgoing, DNSQuestion, ServiceInfo, const
+    import zeroconf._services.browser as B
+
+    sim = vsim.Sim(case["simseed"], maxdelay=0)
+    out = {}
+    reg = [t.lower() for t in case["registered"]]
+
+    def can(name, ty):
+        """does the host have an answer strategy for this question?  (from the scenario alone: it registered one instance `Mine.<type>`
+        per type in `registered`, all on the host `mine.local.`)"""
+        n = name.lower()
+        if ty in (12, 255) and n in reg:
+            return True
+        if ty in (1, 28, 255) and n == MINE_HOST and reg:
+            return True
+        if ty in (33, 16, 255) and any(n == "mine." + t for t in reg):
+            return True
+        return False
+
+    async def main(sim):
+        host = sim.make_host("B", "10.0.0.2")
+        zc = host.zc
+        await zc.async_wait_for_start()
+        for t in case["registered"]:
+            zc.registry.async_add(ServiceInfo(t, "Mine." + t, port=80, addresses=[b"\x0a\x00\x00\x02"], server=MINE_HOST))
+        if case.get("updated"):
+            for t in case["registered"]:
+                # what `async_update_service` does to the registry (new TXT data for the same instance)
+                zc.registry.async_update(ServiceInfo(t, "Mine." + t, port=80, addresses=[b"\x0a\x00\x00\x02"], server=MINE_HOST, properties={"v": "2"}))
+        await sim.sleep_ms(5000)
+        now0 = sim.loop.ms
+        mine = [ptr(T, "Inst%d.%s" % (i, T), 4500, now0 - 1000) for i in range(case["ours"])]
+        if case["oursy"]:
+            mine.append(ptr(T2, "InstY0." + T2, 4500, now0 - 1000))
+        if case["cover"]:
+            mine.append(ptr(T, "Mine." + T, 4500, now0 - 1000))
+        zc.cache.async_add_records(mine)
+        pre = hist_tokens(zc.question_history)
+        toks = []
+        times = []
+        for i, pk in enumerate(case["packets"]):
+            if i and case["pgap"]:
+                await sim.sleep_ms(case["pgap"])
+            t = sim.loop.ms
+            times.append(t)
+            q = DNSOutgoing(const._FLAGS_QR_QUERY | (const._FLAGS_TC if pk["tc"] else 0))
+            qtok = []
+            for (tag, ty, qu) in pk["qs"]:
+                qq = DNSQuestion(_qname(tag), ty, const._CLASS_IN)
+                qq.unicast = qu
+                q.add_question(qq)
+                qtok.append("%s %s" % (C.question_line(qq), C.b01(can(qq.name, ty))))
+            recs = []
+            for tag in pk["ans"]:
+                r = _their(tag, t)
+                q.add_answer_at_time(r, 0)
+                recs.append(r)
+            for tag in pk["auth"]:
+                r = _their(tag, t)
+                q.add_authorative_answer(r)
+                recs.append(r)
+            data = q.packets()
+            assert len(data) == 1
+            host.inject(data[0], "10.0.0.9", case["port"])
+            toks.append("%s %d %s %d %s" % (C.b01(bool(pk["auth"])), len(qtok), " ".join(qtok), len(recs), " ".join(C.rec_line(r, created=t) for r in recs)))
+        out["times"] = times
+        out["hear"] = (" ".join(("c13hearm %d %s %d %s" % (times[-1], pre, len(toks), " ".join(toks))).split()), hist_str(zc.question_history), "hearm")
+        if case.get("tick") is not None:
+            g1 = int(case["gap"] * case["tick"])
+            await sim.sleep_ms(g1)
+            pre_t = hist_tokens(zc.question_history)
+            zc.engine._async_cache_cleanup()
+            out["tick"] = ("c13expire %d %s" % (sim.loop.ms, pre_t), hist_str(zc.question_history), "expire")
+            await sim.sleep_ms(case["gap"] - g1)
+        else:
+            await sim.sleep_ms(case["gap"])
+        now = sim.loop.ms
+        out["now"] = now
+        pre_hist, pre_cache = hist_tokens(zc.question_history), cache_tokens(zc.cache)
+        ts = {T, T2}
+        outs = B.generate_service_query(zc, float(now), ts, True, None)
+        tl = list(ts)
+        out["svc"] = ("c13svc %d 0 %s %s %d %s" % (now, pre_cache, pre_hist, len(tl), " ".join(C.hs(x) for x in tl)),
+                      "%s || %s" % (outs_str(outs, float(now)), hist_str(zc.question_history)), "svc")
+        out["asked"] = {q.name.lower() for o_ in outs for q in o_.questions}
+        await vsim.close_host(host)
+
+    sim.run(main)
+    bad = loop_errors(sim)
+    # ---- the property's sentence, from the scenario alone
+    t_first, t_last, now = out["times"][0], out["times"][-1], out["now"]
+    theirs = [tag for pk in case["packets"] if not pk["auth"] for tag in pk["ans"]]     # a probe's records are not known answers
+    for ty in (T, T2):
+        heard_qm = any(_qname(tag).lower() == ty.lower() and qt == 12 and not qu and can(_qname(tag), qt) for pk in case["packets"] for (tag, qt, qu) in pk["qs"])
+        if ty == T:
+            ours = {str(i) for i in range(case["ours"])} | ({"mine"} if case["cover"] else set())
+            foreign = [x for x in theirs if x.startswith("y")]
+        else:
+            ours = {"y0"} if case["oursy"] else set()
+            foreign = [x for x in theirs if not x.startswith("y")]
+        same = [x for x in theirs if x not in foreign]
+        # reading (named in notes/agents/C13.md): "nothing it does not know itself" = nothing it would not list itself as a known answer
+        # to this question; a record of another question in the peer's list (`foreign`) that we hold in the cache leaves both
+        # directions open
+        covered = not foreign and set(same) <= ours
+        uncovered = not set(same) <= ours     # a record of this very question that we do not hold: the peer knows more, we have to ask
+        asked = ty.lower() in out["asked"]
+        demand_sup = heard_qm and case["port"] == 5353 and covered and now - t_first <= 999
+        demand_sent = (not heard_qm) or now - t_last > 999 or uncovered
+        if demand_sup and asked:
+            bad.append(("C13:heard-question-suppression", "a %s-question query (%s) from port %d was heard %d ms earlier by a host authoritative for %s; its QM question %s "
+                        "came with known answers %s, all of which we list ourselves, yet our own QM question was sent"
+                        % (sum(len(pk["qs"]) for pk in case["packets"]), case["form"], case["port"], now - t_first, case["registered"], ty, theirs)))
+        elif demand_sent and not asked:
+            bad.append(("C13:heard-question-suppression", "our QM question %s was suppressed %d ms after a %s query although %s"
+                        % (ty, now - t_last, case["form"], "no QM question for it was heard by us as its responder" if not heard_qm else
+                           ("the window had passed" if now - t_last > 999 else "the peer listed a record we do not hold"))))
+    pairs = [out["svc"], out["hear"]] + ([out["tick"]] if "tick" in out else [])
+    sig = ("hearm", case["form"], tuple(sorted(case["registered"])), case["port"] == 5353, min(case["gap"], 1001), len(case["packets"]),
+           tuple(sorted((tag, ty, qu) for pk in case["packets"] for (tag, ty, qu) in pk["qs"]))[:3], bool(theirs))
+    return pairs, bad, sig
+
+
+# ------------------------------------------------------------------------------------------
+# stream ingest: the cache is built by the real receive path -- response datagrams delivered to a real host, a pointer possibly twice in one
+# datagram (answer + additional section), refreshed by later datagrams -- and the browser query's known answers are compared with what the
+# datagram history says: a record's life starts at its LAST sighting
+
+
+def gen_ingest_case(rng):
+    ttl = rng.choice([1125, 1200, 1200, 4500])     # not below the 1125 s floor the record manager applies to received pointers (C06's business)
+    n = rng.choice([1, 2, 3])
+    events = [{"at": 0, "recs": [[i, rng.random() < 0.6] for i in range(n)]}]      # [alias index, sent twice in this datagram]
+    t = 0
+    for _ in range(rng.choice([1, 1, 2, 3])):
+        t += rng.choice([ttl * 300, ttl * 499, ttl * 500, ttl * 501, ttl * 700, ttl * 900])
+        events.append({"at": t, "recs": [[i, rng.random() < 0.3] for i in range(n) if rng.random() < 0.75] or [[0, False]]})
+    asks = sorted({e["at"] + d for e in events for d in rng.sample([0, 1, 1000, ttl * 100, ttl * 499, ttl * 500, ttl * 501, ttl * 800], 3)})
+    return {"stream": "ingest", "simseed": rng.randint(0, 10**6), "ttl": ttl, "n": n, "events": events, "asks": asks}
+
+
+def run_ingest(case, res):
+    from zeroconf import DNSIncoming, DNSOutgoing, DNSQuestionType, const
+    import zeroconf._services.browser as B
+
+    sim = vsim.Sim(case["simseed"], maxdelay=0)
+    obs = []
+    ttl = case["ttl"]
+
+    async def main(sim):
+        host = sim.make_host("B", "10.0.0.2")
+        zc = host.zc
+        await zc.async_wait_for_start()
+        await sim.sleep_ms(2000)
+        t0 = sim.loop.ms
+        last = {}     # alias index -> arrival time of its last sighting (the property's own bookkeeping)
+        todo = sorted([(e["at"], 0, e) for e in case["events"]] + [(a, 1, None) for a in case["asks"]], key=lambda x: (x[0], x[1]))
+        for (at, kind, e) in todo:
+            if t0 + at > sim.loop.ms:
+                await sim.sleep_ms(t0 + at - sim.loop.ms)
+            now = sim.loop.ms
+            if kind == 0:
+                out = DNSOutgoing(const._FLAGS_QR_RESPONSE | const._FLAGS_AA)
+                for (i, twice) in e["recs"]:
+                    r = ptr(T, "Inst%d.%s" % (i, T), ttl, 0)
+                    out.add_answer_at_time(r, 0)
+                    if twice:
+                        out.add_additional_answer(ptr(T, "Inst%d.%s" % (i, T), ttl, 0))
+                    last[i] = now
+                for pkt in out.packets():
+                    host.inject(pkt, "10.0.0.9", 5353)
+            else:
+                pre_hist, pre_cache = hist_tokens(zc.question_history), cache_tokens(zc.cache)
+                outs = B.generate_service_query(zc, float(now), {T}, True, DNSQuestionType.QU)
+                pair = ("c13svc %d 1 %s %s 1 %s" % (now, pre_cache, pre_hist, C.hs(T)), "%s || %s" % (outs_str(outs, float(now)), hist_str(zc.question_history)), "svc")
+                got = sorted((a.alias, a.ttl) for o_ in outs for p_ in o_.packets() for a in DNSIncoming(p_).answers())
+                want = sorted(("Inst%d.%s" % (i, T), int((ts + 1000 * ttl - now) // 1000)) for i, ts in last.items() if now < ts + 500 * ttl)
+                obs.append((at, pair, got, want, bool(outs)))
+        await vsim.close_host(host)
+
+    sim.run(main)
+    bad = loop_errors(sim)
+    pairs = []
+    for (at, pair, got, want, asked) in obs:
+        pairs.append(pair)
+        if not asked:
+            bad.append(("C13:qu-suppressed", "the QU question was not asked at +%d ms" % at))
+        elif got != want:
+            bad.append(("C13:known-answers-after-refresh", "at +%d ms the query lists known answers %s; by the datagrams received (TTL %d s, a record's life starts at its last "
+                        "sighting) the records with more than half their TTL left, and their remaining TTLs, are %s" % (at, got, ttl, want)))
+    sig = ("ingest", ttl, len(case["events"]), any(tw for e in case["events"] for (_, tw) in e["recs"]), len(obs))
     return pairs, bad, sig
 
 
@@ -477,8 +782,13 @@ def gen_loop_case(rng):
     if r < 0.35:
         arrive = {"at": rng.choice([100, 230, 300, 400, 600, 1300, rng.randint(0, timeout)]), "what": rng.choice(["srv", "srv", "srv+txt", "txt", "all"])}
     tick = rng.choice([None, None, 250, 300, 350, 400, 600]) if arrive is None else None
-    return {"stream": "loop", "simseed": rng.randint(0, 10**6), "timeout": timeout, "forced": rng.choice([None, None, None, "QU", "QM"]), "arrive": arrive,
+    case = {"stream": "loop", "simseed": rng.randint(0, 10**6), "timeout": timeout, "forced": rng.choice([None, None, None, "QU", "QM"]), "arrive": arrive,
             "tick_at": tick}
+    if arrive is None and rng.random() < 0.12:
+        # address records named like the instance (asked while no SRV is known), more than one packet holds: every query of the
+        # real lookup goes out as a TC train
+        case["many"] = {"n": rng.choice([100, 150, 250]), "ttl": rng.choice([4, 120, 4500]), "age": rng.choice([0, 1000, 1500])}
+    return case
 
 
 def run_loop(case, res):
@@ -497,6 +807,11 @@ def run_loop(case, res):
         zc = host.zc
         await zc.async_wait_for_start()
         await sim.sleep_ms(3000)
+        if case.get("many"):
+            mn = case["many"]
+            o["pre"] = [DNSAddress(name, const._TYPE_A, const._CLASS_IN | const._CLASS_UNIQUE, mn["ttl"], bytes([10, 1, i // 250, i % 250]),
+                                   created=float(sim.loop.ms - mn["age"])) for i in range(mn["n"])]
+            zc.cache.async_add_records(o["pre"])
         info = AsyncServiceInfo(T, name)
         cls = I.ServiceInfo
         og, ow = cls._generate_request_query, cls.async_wait
@@ -558,7 +873,7 @@ def run_loop(case, res):
     # ---- replay the loop in the model, iteration by iteration
     fz = {None: "-", "QU": "1", "QM": "0"}[case["forced"]]
     pairs = []
-    bad = []
+    bad = loop_errors(sim)
     start = o["start"]
     draws = list(o["draws"])
     # group the log into iterations: [gen] wait
@@ -578,10 +893,35 @@ def run_loop(case, res):
     case["_start"] = start
     # ---- oracle on the datagrams
     queries = []
+    trains = []      # one transmitted query = a TC train: the datagram with the questions and its continuations
+    open_ = None
     for (t, src, ip, port, data) in sim.net.log:
         m = DNSIncoming(data)
-        if m.is_query() and any(q.name.lower() in (name.lower(), "host.local.") for q in m.questions):
+        if not m.is_query():
+            continue
+        if open_ is not None and not m.questions:
+            open_["msgs"].append(m)
+            open_["sizes"].append(len(data))
+            if not m.truncated:
+                open_ = None
+            continue
+        if any(q.name.lower() in (name.lower(), "host.local.") for q in m.questions):
             queries.append((t + vsim.T0, [q.unique for q in m.questions], sorted((q.name, q.type) for q in m.questions)))
+            trains.append({"t": t + vsim.T0, "msgs": [m], "sizes": [len(data)]})
+            open_ = trains[-1] if m.truncated else None
+    for tr in trains:
+        tcs = [m.truncated for m in tr["msgs"]]
+        if tcs != [True] * (len(tcs) - 1) + [False]:
+            bad.append(("C13:tc-bits", "TC bits of the packets of the lookup query at +%d ms are %s" % (tr["t"] - o["start"], tcs)))
+        if any(sz > const._MAX_MSG_TYPICAL for sz in tr["sizes"]):
+            bad.append(("C13:packet-size", "lookup query packet sizes %s" % tr["sizes"]))
+        if case.get("many") and any(q.name.lower() == name.lower() and q.type == const._TYPE_A for q in tr["msgs"][0].questions):
+            # known answers of the A question: exactly the cached records with more than half their TTL left, each with its remaining TTL
+            want = sorted((r.address, int((r.created + 1000 * r.ttl - tr["t"]) // 1000)) for r in o["pre"] if tr["t"] < r.created + 500 * r.ttl)
+            got = sorted((a.address, a.ttl) for m in tr["msgs"] for a in m.answers() if a.type == const._TYPE_A and a.name.lower() == name.lower())
+            if got != want:
+                bad.append(("C13:lookup-known-answers", "the lookup query at +%d ms (%d packets) lists %d known A records, %d cached ones have more than half "
+                            "their TTL left (first difference: %s)" % (tr["t"] - o["start"], len(tr["msgs"]), len(got), len(want), sorted(set(got) ^ set(want))[:2])))
     if queries:
         first_qu = case["forced"] != "QM"
         if any(b != first_qu for b in queries[0][1]):
@@ -589,16 +929,32 @@ def run_loop(case, res):
         for (t, qus, qs) in queries[1:]:
             if any(qus):
                 bad.append(("C13:lookup-later-query-qu", "a later lookup query at +%d ms is QU" % (t - start)))
+        def known_of(tr):
+            """question -> identities of the known answers listed for it in this (possibly multi-packet) query"""
+            ans = [a for m in tr["msgs"] for a in m.answers()]
+            return {(q.name.lower(), q.type): frozenset(C.rec_line(a, created=0).split(" ", 7)[-1] for a in ans if a.name.lower() == q.name.lower() and a.type == q.type)
+                    for q in tr["msgs"][0].questions}
+
+        gens = [ev for ev in log if ev[0] == "gen"]
         for i in range(2, len(queries)):
             gap = queries[i][0] - queries[i - 1][0]
             if gap < 1000:
-                # D13's signature: the third query is early because *new* questions appeared; a mere repeat of questions already
-                # asked in the second query is not D13
-                new_qs = set(queries[i][2]) - set(queries[i - 1][2])
-                sig = D13_SIG if (i == 2 and new_qs) else "C13:lookup-spacing"
-                bad.append((sig, "lookup queries at +%d and +%d ms: query %d is %d ms after query %d (questions %s)"
-                            % (queries[i - 1][0] - start, queries[i][0] - start, i + 1, gap, i, queries[i][2])))
-    sig = ("loop", case["timeout"], case["forced"], bool(case["arrive"]) and case["arrive"]["what"], len(queries), len(iters))
+                # D13's input class, exactly (DESIGN 5 D13; `C13_lookup_spacing_partial` starts after the first QM request):
+                #  * the lookup is not forced to QM (then the first request is QU and the second is the first QM one: `delay` is still
+                #    200 ms when the third request is scheduled);
+                #  * the early query is the third request generated, the one before it the second, and it comes 200 ms + jitter
+                #    (220..320 ms) after it;
+                #  * it is transmitted because it is not a duplicate: every question in it is new, or lists fewer known answers than
+                #    the second query did (records arrived / went stale in between), so the history rightly does not suppress it.
+                # Anything else -- another gap, a later pair, a forced-QM lookup, a mere repeat of the second query -- is a different defect.
+                k_prev, k_now = known_of(trains[i - 1]), known_of(trains[i])
+                not_dup = all(q not in k_prev or not (k_prev[q] <= k_now[q]) for q in k_now)
+                third = (i == 2 and len(gens) > 2 and gens[1][1] == queries[1][0] and gens[2][1] == queries[2][0])
+                sig = D13_SIG if (third and case["forced"] != "QM" and 220 <= gap <= 320 and not_dup) else "C13:lookup-spacing"
+                bad.append((sig, "lookup queries at +%d and +%d ms: query %d is %d ms after query %d (questions %s; %s)"
+                            % (queries[i - 1][0] - start, queries[i][0] - start, i + 1, gap, i, queries[i][2],
+                               "none of them a duplicate of the previous query's" if not_dup else "repeating the previous query")))
+    sig = ("loop", case["timeout"], case["forced"], bool(case["arrive"]) and case["arrive"]["what"], len(queries), len(iters), max([len(tr["msgs"]) for tr in trains] + [0]))
     return pairs, bad, sig
 
 
@@ -627,7 +983,23 @@ def loop_model_check(res, case, run_driver):
 # ------------------------------------------------------------------------------------------
 
 
-RUNNERS = {"svc": run_svc, "req": run_req, "hear": run_hear, "loop": run_loop}
+RUNNERS = {"svc": run_svc, "req": run_req, "hear": run_hear, "hearm": run_hearm, "ingest": run_ingest, "loop": run_loop}
+
+
+def guarded(case, res):
+    """run one case; fail closed: every generated case is a valid input of the library, so an exception that escapes one of the
+    anchored functions is a violation with the input as replay (a defect of the harness itself looks the same and must be
+    repaired -- it is never filed as a note).  -> (pairs, bad, sig), pairs = None when the case crashed"""
+    try:
+        return RUNNERS[case["stream"]](case, res)
+    except Exception as ex:
+        import traceback
+
+        tb = traceback.extract_tb(ex.__traceback__)
+        where = next(("%s:%d %s" % (f.filename.split("/")[-1], f.lineno, f.name) for f in reversed(tb) if "/zeroconf/" in f.filename), None)
+        what = "%s stream: %s: %s escaped %s under a valid input" % (case.get("stream"), type(ex).__name__, str(ex)[:160],
+                                                                    where or "the harness (%s:%d)" % (tb[-1].filename.split("/")[-1], tb[-1].lineno))
+        return None, [("C13:exception", what)], None
 
 D13_CASE = {"stream": "loop", "simseed": 1, "timeout": 3000, "forced": None, "arrive": {"at": 300, "what": "srv"}}
 
@@ -639,11 +1011,12 @@ def run(ctx):
     n_svc = C.Budget(ctx["tier"], 700, 12000).n * scale
     n_big = C.Budget(ctx["tier"], 12, 150).n
     n_req = C.Budget(ctx["tier"], 500, 8000).n * scale
-    n_hear = C.Budget(ctx["tier"], 120, 1500).n * scale
+    n_hear = C.Budget(ctx["tier"], 80, 1000).n * scale
+    n_hearm = C.Budget(ctx["tier"], 160, 2500).n * scale
     n_loop = C.Budget(ctx["tier"], 150, 2500).n * scale
     cases = [body.get("case", body) for _, body in C.load_corpus("C13")]
     cases += [gen_svc_case(rng) for _ in range(n_svc)] + [gen_svc_case(rng, big=True) for _ in range(n_big)]
-    cases += [gen_req_case(rng) for _ in range(n_req)] + [gen_hear_case(rng) for _ in range(n_hear)] + [gen_loop_case(rng) for _ in range(n_loop)]
+    cases += [gen_req_case(rng) for _ in range(n_req)] + [gen_req_case(rng, many=rng.choice([60, 120, 150, 150, 300])) for _ in range(C.Budget(ctx["tier"], 10, 150).n)] + [gen_hear_case(rng) for _ in range(n_hear)] + [gen_hearm_case(rng) for _ in range(n_hearm)] + [gen_ingest_case(rng) for _ in range(C.Budget(ctx["tier"], 60, 1000).n * scale)] + [gen_loop_case(rng) for _ in range(n_loop)]
     res.rule = ("svc: cache of 0-400 PTRs (ages 0, half TTL -1/0/+1, expiry -1/0/+1, random; 2 types, re-cased owner names, noise records) x forced QU/QM/none "
                 "x multicast/unicast x an earlier asker (same instance with the same/smaller/larger cache, or a question heard as responder) at gaps "
                 "{0,1,500,998,999,1000,1001,5000}; req: lookup request queries over SRV/TXT/A/AAAA ages; hear: real host hears a question from the link; "
@@ -653,10 +1026,12 @@ def run(ctx):
     seen = set()
     loops = []
     for case in cases:
-        try:
-            pairs, bad, sig = RUNNERS[case["stream"]](case, res)
-        except Exception as ex:
-            res.notes.append("case crashed in the harness: %s %r" % (case.get("stream"), ex))
+        pairs, bad, sig = guarded(case, res)
+        if pairs is None:
+            res.count("crashed")
+            if "C13:exception" not in seen or res.dist["crashed"] <= 5:
+                seen.add("C13:exception")
+                res.violate("C13:exception", bad[0][1], {k: v for k, v in case.items() if not k.startswith("_")})
             continue
         res.evaluations += 1
         res.count(case["stream"])
@@ -690,8 +1065,10 @@ def run(ctx):
 def replay(body):
     case = dict(body.get("case", body))
     res = C.Result("C13")
-    pairs, bad, sig = RUNNERS[case["stream"]](case, res)
+    pairs, bad, sig = guarded(case, res)
     out = {"oracle": bad, "violates": bool(bad)}
+    if pairs is None:
+        return out
     try:
         model = C.run_driver([p[0] for p in pairs])
         out["model_agrees"] = all(m == p[1] for m, p in zip(model, pairs))
